@@ -151,6 +151,7 @@ func runC12(c *Ctx) {
 			continue
 		}
 		nm := canon(describeArg(cs, 0), cs)
+		nm = strings.ReplaceAll(nm, "*alloc:REPORT.", "alloc:REPORT.") // the report reached through a pointer to the same variable
 		// (canonical rendering of string building: Sprintf("%s/%g.json", …), concatenation with
 		// strconv.FormatFloat(X, 'g', -1, 64), … all read the same)
 		want := `(((alloc:REPORT.Week + "/") + fmtg(alloc:REPORT.X)) + ".json")`
@@ -188,6 +189,20 @@ func runC12(c *Ctx) {
 				switch calleeName(&cl.Call) {
 				case "godev/internal/content.Error":
 					code, isC := intConst(argsOf(cl)[1])
+					if !isC {
+						// a status chosen among constants (400 for most payload errors, 413 for an oversized one): each of them
+						isC = true
+						for _, sv := range alternatives(argsOf(cl)[1], facts) {
+							c2, ok2 := intConst(sv)
+							if !ok2 || c2 < 400 || c2 >= 500 {
+								isC = false
+							}
+							code = c2
+						}
+						if !isC {
+							code = 0
+						}
+					}
 					r.Check("C12.status-classes", fmt.Sprintf("handleUpload/content.Error %d", code), gd.Pos(ret.Pos()), isC && code >= 400 && code < 500, "request-derived failures must answer a constant 4xx; got "+d)
 				case "godev/internal/content.Status":
 					code, isC := intConst(argsOf(cl)[1])
